@@ -20,6 +20,7 @@ func checkC01(c *Check) {
 	c.handlerDiscipline("C01.6 callback-protocol")
 	c.oneOpenPerConnection("C01.6 capabilities-once-per-open")
 	c.disableEnablePairing("C01.7 fsm-table-consistent")
+	c.fsmSlotTypestate("C01.7 fsm-slot-typestate")
 	c.checkOwnership("C01.7 fsm-table-owned-by-manager")
 	c.peerStopDisablesBoth("C01.8 stop-delivers-onclose")
 	c.serveShutdown("C01.8 stop-delivers-onclose")
@@ -235,4 +236,66 @@ func (c *Check) peerStopDisablesBoth(rule string) {
 			c.require(isCall, rule, p.Name(fn), "peer.stop call", p.InstrPos(cl.(ssa.Instruction)), "peers are stopped synchronously (not in a goroutine or deferred past the return)")
 		}
 	}
+}
+
+// fsmSlotTypestate: the FSM table is a two-state cell per direction (empty /
+// occupied). A non-nil FSM is stored only into a slot known to be empty on
+// every path reaching the store (otherwise a live FSM is orphaned: it keeps
+// running, may reach Established beside its replacement and is never
+// stopped); nil is stored only after the occupant's stop() returned.
+func (c *Check) fsmSlotTypestate(rule string) {
+	p := c.P
+	n := 0
+	for _, fn := range p.FuncSeq {
+		var stores []*ssa.Store
+		allInstrs(fn, func(in ssa.Instruction) {
+			st, ok := in.(*ssa.Store)
+			if !ok {
+				return
+			}
+			ia, ok := st.Addr.(*ssa.IndexAddr)
+			if !ok {
+				return
+			}
+			if fa, ok := ia.X.(*ssa.FieldAddr); ok && structFieldName(fa) == "fsms" && structNameOfPtr(fa.X.Type()) == "peer" {
+				stores = append(stores, st)
+			}
+		})
+		if len(stores) == 0 {
+			continue
+		}
+		a := NewAnalysis(p, fn)
+		a.Run()
+		for _, st := range stores {
+			n++
+			storesNil := false
+			if cst, ok := st.Val.(*ssa.Const); ok && cst.Value == nil {
+				storesNil = true
+			}
+			okAll := len(a.At[st]) > 0
+			detail := ""
+			for _, s := range a.At[st] {
+				addr := a.ExprAt(s, st.Addr)
+				old := s.load(addr, st.Val.Type())
+				if storesNil {
+					if !s.must["call:fsm.stop"] {
+						okAll = false
+						detail = "a path clears the slot without stop() of the occupant"
+					}
+					continue
+				}
+				if v, isC := s.nonNil(old).IsConst(); !isC || v != 0 {
+					okAll = false
+					detail = "slot occupant " + trunc(old.String(), 60) + " not known to be nil"
+				}
+			}
+			what := "non-nil store into an empty slot"
+			if storesNil {
+				what = "slot cleared after stop()"
+			}
+			c.require(okAll, rule, p.Name(fn), what, p.InstrPos(st),
+				"peer.fsms[i] is overwritten only when empty (checked nil on every path) and cleared only after the occupant's stop() joined its goroutine "+detail)
+		}
+	}
+	c.floor(rule, n, 2, "stores to peer.fsms")
 }
